@@ -153,6 +153,8 @@ pub fn parse_transcript(t: &[u8]) -> (Vec<Resp>, End) {
                 }
                 Framing::Chunked
             }
+            // 1xx, 204 and 304 responses never have a body and need no framing field
+            (0, 0) if code / 100 == 1 || code == 204 || code == 304 => Framing::ContentLength(0),
             (0, 0) => return (out, End::Invalid("response has neither content-length nor transfer-encoding".into())),
             (a, b) => return (out, End::Invalid(format!("ambiguous framing: {a} content-length and {b} transfer-encoding fields"))),
         };
